@@ -1,3 +1,264 @@
 package main
 
-func cmdSelftest(args []string) int { return 0 }
+// `bufsa selftest` — run by MANIFEST.setup_cmd before any check. It does not look at /repo. It exercises the
+// analysis primitives on small embedded programs for which the right answer is known, in both directions (a case
+// that must hold and a case that must fail), and validates the committed tables. A failure here means the machinery
+// itself is broken and nothing it reports should be believed; it exits non-zero.
+
+import (
+	"encoding/json"
+	"fmt"
+	"go/ast"
+	"go/importer"
+	"go/parser"
+	"go/token"
+	"go/types"
+	"os"
+	"path/filepath"
+	"sort"
+	"strings"
+)
+
+type miniProg struct {
+	P    *Prog
+	File *ast.File
+	Info *types.Info
+}
+
+func loadSnippet(src string) (*miniProg, error) {
+	fset := token.NewFileSet()
+	f, err := parser.ParseFile(fset, "snippet.go", src, parser.ParseComments)
+	if err != nil {
+		return nil, err
+	}
+	info := &types.Info{
+		Types: map[ast.Expr]types.TypeAndValue{}, Defs: map[*ast.Ident]types.Object{}, Uses: map[*ast.Ident]types.Object{},
+		Implicits: map[ast.Node]types.Object{}, Selections: map[*ast.SelectorExpr]*types.Selection{}, Scopes: map[ast.Node]*types.Scope{},
+	}
+	conf := types.Config{Importer: importer.ForCompiler(fset, "source", nil)}
+	if _, err := conf.Check("snippet", fset, []*ast.File{f}, info); err != nil {
+		return nil, err
+	}
+	p := &Prog{Fset: fset, parents: map[*ast.File]map[ast.Node]ast.Node{}, fileOf: map[*token.File]*ast.File{}, cfgs: map[*ast.BlockStmt]*FnCFG{}}
+	p.fileOf[fset.File(f.Pos())] = f
+	return &miniProg{p, f, info}, nil
+}
+
+func (m *miniProg) fn(name string) *ast.FuncDecl {
+	for _, d := range m.File.Decls {
+		if fd, ok := d.(*ast.FuncDecl); ok && fd.Name.Name == name {
+			return fd
+		}
+	}
+	return nil
+}
+
+// callsNamed returns the call expressions to the function `name` inside n, in source order.
+func callsNamed(n ast.Node, name string) []ast.Node {
+	var out []ast.Node
+	ast.Inspect(n, func(x ast.Node) bool {
+		if call, ok := x.(*ast.CallExpr); ok {
+			if id, ok := call.Fun.(*ast.Ident); ok && id.Name == name {
+				out = append(out, call)
+			}
+		}
+		return true
+	})
+	return out
+}
+
+const selftestCFG = `package snippet
+func open() int { return 0 }
+func closeIt(int) {}
+func work(int) bool { return true }
+
+// closes on every path
+func good(x bool) int {
+	h := open()
+	if x {
+		closeIt(h)
+		return 1
+	}
+	work(h)
+	closeIt(h)
+	return 2
+}
+
+// the early return skips the close
+func bad(x bool) int {
+	h := open()
+	if !work(h) {
+		return 1
+	}
+	closeIt(h)
+	return 2
+}
+`
+
+const selftestLess = `package snippet
+import "strings"
+type T struct{ n string }
+func strict(a []T) func(i, j int) bool {
+	return func(i, j int) bool {
+		left := a[i].n
+		right := a[j].n
+		if strings.HasPrefix(left, "(") && !strings.HasPrefix(right, "(") {
+			return false
+		}
+		return left < right
+	}
+}
+func nonStrict(a []T) func(i, j int) bool {
+	return func(i, j int) bool {
+		left, right := a[i].n, a[j].n
+		return left <= right
+	}
+}
+func undecided(a []T, f func(T) bool) func(i, j int) bool {
+	return func(i, j int) bool { return !f(a[j]) }
+}
+`
+
+const selftestPatchOld = "a\nb\nc\nd\ne\nf\n"
+const selftestPatch = `diff --git a/x.txt b/x.txt
+--- a/x.txt
++++ b/x.txt
+@@ -10,4 +10,4 @@
+ b
+-c
++C
++C2
+ d
+`
+const selftestPatchNew = "a\nb\nC\nC2\nd\ne\nf\n"
+
+func cmdSelftest(args []string) int {
+	fails := 0
+	check := func(name string, ok bool, format string, a ...any) {
+		state := "ok  "
+		if !ok {
+			state = "FAIL"
+			fails++
+		}
+		fmt.Printf("selftest %s %-38s %s\n", state, name, fmt.Sprintf(format, a...))
+	}
+
+	// 1. registry and committed tables
+	var missing []string
+	for i := 1; i <= 20; i++ {
+		if registry[fmt.Sprintf("C%02d", i)] == nil {
+			missing = append(missing, fmt.Sprintf("C%02d", i))
+		}
+	}
+	check("registry", len(missing) == 0, "20 properties registered (missing %v)", missing)
+	if kfs, err := loadKnownFindings(); err != nil {
+		check("known_findings.json", false, "%v", err)
+	} else {
+		bad := 0
+		for _, k := range kfs {
+			if registry[k.Property] == nil || k.Rule == "" || k.Instance == "" || (k.Status != "known" && !strings.HasPrefix(k.Status, "fixed: property="+k.Property+" ")) {
+				bad++
+			}
+		}
+		check("known_findings.json", bad == 0 && len(kfs) > 0, "%d entries, %d malformed (status is `known` or `fixed: property=<id> <commit> <what failed>`)", len(kfs), bad)
+	}
+	if ents, err := os.ReadDir(filepath.Join(verifDir, "seeded")); err == nil {
+		n, bad := 0, 0
+		for _, e := range ents {
+			if !e.IsDir() {
+				continue
+			}
+			n++
+			var m seedMeta
+			b, err := os.ReadFile(filepath.Join(verifDir, "seeded", e.Name(), "meta.json"))
+			if err != nil || json.Unmarshal(b, &m) != nil || registry[m.Property] == nil {
+				bad++
+			}
+			if _, err := os.Stat(filepath.Join(verifDir, "seeded", e.Name(), "patch.diff")); err != nil {
+				bad++
+			}
+		}
+		check("seeded changes", bad == 0, "%d stored, %d unreadable", n, bad)
+	}
+
+	// 2. CFG primitives, both directions
+	if m, err := loadSnippet(selftestCFG); err != nil {
+		check("cfg snippet", false, "%v", err)
+	} else {
+		for _, tc := range []struct {
+			fn   string
+			want bool // an exit is reachable from open() avoiding closeIt()
+		}{{"good", false}, {"bad", true}} {
+			fd := m.fn(tc.fn)
+			g := m.P.CFGOf(fd.Body, m.Info)
+			opens, closes := callsNamed(fd.Body, "open"), callsNamed(fd.Body, "closeIt")
+			got, _ := g.ExitReachableAvoiding(opens[0], closes, nil)
+			check("ExitReachableAvoiding/"+tc.fn, got == tc.want, "exit reachable from the acquire while avoiding every release: %v (want %v)", got, tc.want)
+		}
+		fd := m.fn("good")
+		g := m.P.CFGOf(fd.Body, m.Info)
+		opens, works := callsNamed(fd.Body, "open"), callsNamed(fd.Body, "work")
+		check("Dominates", g.Dominates(opens[0], works[0]) && !g.Dominates(works[0], opens[0]), "open() dominates work() and not conversely")
+		closes := callsNamed(fd.Body, "closeIt")
+		check("Reachable", g.Reachable(opens[0], closes[1]) && !g.Reachable(closes[0], closes[1]), "the second close is reachable from open() but not from the first close")
+	}
+
+	// 3. comparator evaluation
+	if m, err := loadSnippet(selftestLess); err != nil {
+		check("less snippet", false, "%v", err)
+	} else {
+		for _, tc := range []struct{ fn, want string }{{"strict", "false"}, {"nonStrict", "true"}, {"undecided", "unknown"}} {
+			var lit *ast.FuncLit
+			ast.Inspect(m.fn(tc.fn), func(n ast.Node) bool {
+				if l, ok := n.(*ast.FuncLit); ok && lit == nil {
+					lit = l
+				}
+				return true
+			})
+			got, why := lessReflexive(m.Info, lit, "i", "j")
+			check("lessReflexive/"+tc.fn, got == tc.want, "less(i,i) = %s (want %s): %s", got, tc.want, why)
+		}
+	}
+
+	// 4. in-memory patch application (used by the thorough tier)
+	out, err := applyUnifiedDiff(selftestPatch, func(string) ([]byte, error) { return []byte(selftestPatchOld), nil })
+	check("applyUnifiedDiff/drifted-hunk", err == nil && string(out["x.txt"]) == selftestPatchNew, "hunk recorded at line 10 found at line 2 and applied (err=%v)", err)
+	_, err = applyUnifiedDiff(strings.Replace(selftestPatch, "-c\n", "-zzz\n", 1), func(string) ([]byte, error) { return []byte(selftestPatchOld), nil })
+	check("applyUnifiedDiff/stale-hunk", err != nil, "a hunk whose old lines are gone is refused: %v", err)
+
+	// 5. three-valued guard evaluation (R-ABSVALID)
+	if m, err := loadSnippet("package snippet\nimport \"strings\"\nfunc f(p string) bool { return p == \"..\" || strings.HasPrefix(p, \"../\") }\n"); err != nil {
+		check("guard snippet", false, "%v", err)
+	} else {
+		fd := m.fn("f")
+		v := m.Info.Defs[fd.Type.Params.List[0].Names[0]]
+		cond := fd.Body.List[0].(*ast.ReturnStmt).Results[0]
+		var got []string
+		for _, val := range []string{"..", "../a", "a/b", "."} {
+			got = append(got, fmt.Sprint(evalGuard(m.Info, cond, v, val, false) == triTrue))
+		}
+		check("evalGuard", strings.Join(got, ",") == "true,true,false,false", "escaping-path predicate on [.. ../a a/b .] = %v", got)
+	}
+
+	// 6. every rule table entry that names a function has the documented key shape
+	var badKeys []string
+	for k := range c14NameFilterAllowed {
+		if !strings.HasPrefix(k, "private/") {
+			badKeys = append(badKeys, k)
+		}
+	}
+	for k := range c11CopyConstAllowed {
+		if !strings.Contains(k, ":") {
+			badKeys = append(badKeys, k)
+		}
+	}
+	sort.Strings(badKeys)
+	check("exemption tables", len(badKeys) == 0, "malformed keys: %v", badKeys)
+
+	if fails > 0 {
+		fmt.Printf("selftest: %d FAILED\n", fails)
+		return 1
+	}
+	fmt.Println("selftest: all passed")
+	return 0
+}
